@@ -1,6 +1,6 @@
 (* C02 - frame classification slices radiotap, header, body and FCS exactly.  Statements only. *)
 From LW Require Import Base.Bytes Model.Radiotap Model.Frame Spec.FrameSpec Gen.Layout Gen.Consts Gen.Tables
-  Proofs.RadiotapProofs Proofs.FrameProofs.
+  Proofs.RadiotapProofs Proofs.FrameProofs Proofs.FrameCompose.
 Local Open Scope Z_scope.
 
 (* without a radiotap prefix: for every byte string, the classifier returns exactly the Spec *)
